@@ -102,17 +102,11 @@ func runC01(c *Ctx) {
 		result := resultObj(f, "result")
 		c.Anchor(n != nil && states != nil && result != nil, "GetClosestNInStates: params/result not found")
 		sorts, _ := cf.CallLocs("(*" + qpsT + ").sort")
-		var loops []*ast.RangeStmt
-		f.Walk(func(x ast.Node) bool {
-			if r, ok := x.(*ast.RangeStmt); ok && eng.IsField(info, r.X, qpsT+".all") {
-				loops = append(loops, r)
-			}
-			return true
-		})
+		loops := elemLoopsOver(f, func(e ast.Expr) bool { return eng.IsField(info, e, qpsT+".all") })
 		if c.Check(K(f.Name, "iterates all"), f.Pos(), len(loops) == 1 && len(sorts) == 1, "the selection sorts and iterates the peer list once", "found "+itoa(len(loops))+" loops, "+itoa(len(sorts))+" sort calls") {
-			c.Check(K(f.Name, "sort before iteration"), loops[0].Pos(), cf.Dominates(sorts[0], cf.LocOf(loops[0].X)), "the list is sorted before it is iterated", "iteration reachable without sort()")
+			c.Check(K(f.Name, "sort before iteration"), loops[0].Stmt.Pos(), cf.Dominates(sorts[0], cf.LocOf(loops[0].Head)), "the list is sorted before it is iterated", "iteration reachable without sort()")
 			// appends
-			elem := loops[0].Value
+			isElem := loops[0].IsElem
 			napp := 0
 			for _, as := range assignsTo(f, func(l ast.Expr) bool { return eng.IsObj(info, l, result) }) {
 				app, isApp := eng.IsCallTo(info, as.Rhs[0], "builtin.append")
@@ -124,7 +118,7 @@ func runC01(c *Ctx) {
 				okEl := len(app.Args) == 2 && eng.IsObj(info, app.Args[0], result)
 				if okEl {
 					s, isSel := eng.Unparen(app.Args[1]).(*ast.SelectorExpr)
-					okEl = isSel && eng.NameOf(s.Sel) == "id" && elem != nil && eng.SameExpr(info, s.X, elem) && eng.Contains(loops[0].Body, as)
+					okEl = isSel && eng.NameOf(s.Sel) == "id" && isElem(s.X) && eng.Contains(loops[0].Body, as)
 				}
 				// membership: _, ok := m[p.state]; ok  with m filled from states
 				var mObj eng.Object
@@ -139,7 +133,7 @@ func runC01(c *Ctx) {
 						return false
 					}
 					s, isSel := eng.Unparen(ix.Index).(*ast.SelectorExpr)
-					if !isSel || eng.NameOf(s.Sel) != "state" || elem == nil || !eng.SameExpr(info, s.X, elem) {
+					if !isSel || eng.NameOf(s.Sel) != "state" || !isElem(s.X) {
 						return false
 					}
 					mObj = eng.ObjOf(info, ix.X)
@@ -157,6 +151,14 @@ func runC01(c *Ctx) {
 						ix := eng.Unparen(st.Lhs[0]).(*ast.IndexExpr)
 						if eng.Mentions(info, ix.Index, states) {
 							okSet = true
+						}
+						// or the loop variable of a range over states
+						if o := eng.ObjOf(info, ix.Index); o != nil {
+							for _, d := range f.AssignedFrom(o) {
+								if d != nil && eng.Mentions(info, d, states) {
+									okSet = true
+								}
+							}
 						}
 					}
 				}
@@ -428,6 +430,12 @@ func runC01(c *Ctx) {
 			for _, as := range assignsTo(qp, func(l ast.Expr) bool { return eng.IsObj(qinfo, l, saw) }) {
 				app, isApp := eng.IsCallTo(qinfo, as.Rhs[0], "builtin.append")
 				if !isApp {
+					// the result of a helper that is read in place
+					if call, isCall := eng.Unparen(as.Rhs[0]).(*ast.CallExpr); isCall {
+						if h := p.Func(eng.CalleeName(qinfo, call)); h != nil && h.Adopter != nil {
+							continue
+						}
+					}
 					// initialisation with an empty list
 					if cl, isCL := eng.Unparen(as.Rhs[0]).(*ast.CompositeLit); isCL && len(cl.Elts) == 0 {
 						continue
